@@ -135,3 +135,95 @@ pub fn part_c_frames(_tier: Tier) -> Part {
     part.bounds = json!({"binaries": 4, "frames": 4});
     part
 }
+
+const SIG_SRC: &str = r#"use std::sync::atomic::{AtomicU64, Ordering};
+extern "C" {
+    fn signal(signum: i32, handler: usize) -> usize;
+    fn raise(signum: i32) -> i32;
+}
+static HITS: AtomicU64 = AtomicU64::new(0);
+#[inline(never)]
+fn in_handler(n: u64) -> u64 {
+    HITS.fetch_add(n, Ordering::SeqCst) + 1
+}
+extern "C" fn on_sig(sig: i32) {
+    let r = in_handler(sig as u64);
+    std::hint::black_box(r);
+}
+#[inline(never)]
+fn trigger(k: i32) -> i32 {
+    unsafe { raise(k) }
+}
+fn main() {
+    unsafe { signal(10, on_sig as usize) };
+    let r = trigger(10);
+    println!("{} {}", r, HITS.load(Ordering::SeqCst));
+}
+"#;
+
+/// C05 inside a signal handler of a libc-linked program: the handler was called by the kernel
+/// through libc's signal trampoline, whose frame is described by CFI expressions.
+pub fn part_signal_frames(_tier: Tier) -> Part {
+    let mut part = Part::new("c05_signal_handler_frames");
+    part.rule = "std-linked program that installs a handler with signal(2) and raises the signal from trigger() called by main; at a breakpoint in a function called by the handler the backtrace must be available, begin with that function and the handler at the real pc / inside their ELF symbols, and lead on through the signal trampoline to the interrupted frames: trigger and main must follow, in this order".into();
+    let dir = crate::common::build_dir().join("sigbt");
+    let _ = std::fs::create_dir_all(&dir);
+    let src = dir.join("sigbt.rs");
+    let exe = dir.join("sigbt");
+    let fresh = std::fs::read_to_string(&src).map(|t| t == SIG_SRC).unwrap_or(false) && exe.exists();
+    if !fresh {
+        let _ = std::fs::write(&src, SIG_SRC);
+        let out = std::process::Command::new("rustc").current_dir("/").args(["+1.89", "--edition", "2021", "-g", "-C", "opt-level=0", "-A", "warnings", "-o"]).arg(&exe).arg(&src).output();
+        if !out.map(|o| o.status.success()).unwrap_or(false) {
+            part.violate("MACHINERY:sigbt-build", "rustc failed".to_string(), json!(null));
+            return part;
+        }
+    }
+    let exe = exe.display().to_string();
+    let cmds = vec![json!({"op": "break_fn", "name": "in_handler"}), json!({"op": "start", "bt": true}), json!({"op": "continue", "bt": true}), json!({"op": "continue", "bt": true}), json!({"op": "continue"})];
+    let run = crate::mt::session(
+        &exe,
+        |obs| {
+            if obs.last().map(|o| o["res"]["kind"] == "exit").unwrap_or(false) {
+                return None;
+            }
+            cmds.get(obs.len()).cloned()
+        },
+        Duration::from_secs(60),
+        cmds.len(),
+    );
+    let replay = json!({"engine": "mt", "exe": exe, "commands": cmds});
+    part.evaluations += 1;
+    part.states += run.obs.len() as u64;
+    part.transitions += run.obs.len() as u64;
+    part.traces_validated += 1;
+    if run.hang_at.is_some() || run.crashed.is_some() {
+        part.violate("C05:signal-frame:session-broke", format!("hang {:?} crash {:?}", run.hang_at, run.crashed), replay);
+        return part;
+    }
+    let Some(stop) = run.obs.iter().find(|o| o["res"]["kind"] == "breakpoint") else {
+        part.violate("MACHINERY:sigbt-no-stop-in-handler", format!("{:?}", run.obs.iter().map(|o| o["res"].clone()).collect::<Vec<_>>()), replay);
+        return part;
+    };
+    let names: Vec<String> = stop["bt"].as_array().map(|b| b.iter().map(|f| f["fn"].as_str().unwrap_or("?").to_string()).collect()).unwrap_or_default();
+    part.sample(json!({"backtrace_in_handler": names, "error": stop["bt_err"]}));
+    if stop["bt"].is_null() || names.is_empty() {
+        part.violate("C05:signal-frame:backtrace-failed", format!("at the breakpoint inside the handler the backtrace is not available: {}", stop["bt_err"]), replay.clone());
+    } else {
+        if !(names.len() >= 2 && names[0].ends_with("in_handler") && names[1].ends_with("on_sig")) {
+            part.violate("C05:signal-frame:handler-frames-wrong", format!("backtrace {names:?} does not begin with in_handler, on_sig"), replay.clone());
+        } else {
+            part.distinct_nontrivial += 1;
+        }
+        let t = names.iter().position(|n| n.ends_with("trigger"));
+        let m = names.iter().position(|n| n.ends_with("::main"));
+        if !(matches!((t, m), (Some(t), Some(m)) if 1 < t && t < m)) {
+            part.violate("C05:signal-frame:interrupted-frames-missing", format!("backtrace {names:?}: the frames that were interrupted by the signal (.. trigger, main) do not follow the handler"), replay.clone());
+        }
+    }
+    if !run.obs.iter().any(|o| o["res"]["kind"] == "exit") {
+        part.violate("C05:signal-frame:program-did-not-finish", format!("{:?}", run.obs.last().map(|o| o["res"].clone())), replay);
+    }
+    part.bounds = json!({"programs": 1});
+    part
+}
